@@ -183,6 +183,79 @@ fn plain_list(sels: &[Selection]) -> bool {
     }
     true
 }
+/// C01/Guards.v spread_names / flatS / merge_free, evaluated on the AST (agree compares with the Coq guard)
+fn spread_names<'a>(fs: &Frags<'a>, sels: &[&'a Selection<'a>], depth: usize) -> Option<Vec<&'a str>> {
+    if depth > 64 { return None; }
+    let mut out = vec![];
+    for s in sels {
+        match s {
+            Selection::Field(_) => {}
+            Selection::FragmentSpread(sp) => {
+                let fd = frag(fs, sp.fragment_name.name)?;
+                out.push(sp.fragment_name.name);
+                out.extend(spread_names(fs, &fd.selection_set.selections.iter().collect::<Vec<_>>(), depth + 1)?);
+            }
+            Selection::InlineFragment(i) => out.extend(spread_names(fs, &i.selection_set.selections.iter().collect::<Vec<_>>(), depth + 1)?),
+        }
+    }
+    Some(out)
+}
+fn flat_scope<'a>(sv: &SV, fs: &Frags<'a>, o: &str, sels: &[&'a Selection<'a>], depth: usize) -> Option<Vec<&'a nitrogql_ast::selection_set::Field<'a>>> {
+    if depth > 64 { return None; }
+    let mut out = vec![];
+    for s in sels {
+        match s {
+            Selection::Field(f) => out.push(f),
+            Selection::FragmentSpread(sp) => {
+                let fd = frag(fs, sp.fragment_name.name)?;
+                if sv.applies(o, fd.type_condition.name) { out.extend(flat_scope(sv, fs, o, &fd.selection_set.selections.iter().collect::<Vec<_>>(), depth + 1)?); }
+            }
+            Selection::InlineFragment(i) => {
+                if i.type_condition.map_or(true, |c| sv.applies(o, c.name)) { out.extend(flat_scope(sv, fs, o, &i.selection_set.selections.iter().collect::<Vec<_>>(), depth + 1)?); }
+            }
+        }
+    }
+    Some(out)
+}
+fn nodup(xs: &[&str]) -> bool { xs.iter().enumerate().all(|(i, x)| !xs[i + 1..].contains(x)) }
+fn merge_free<'a>(sv: &SV, fs: &Frags<'a>, t: &str, sels: &[&'a Selection<'a>], depth: usize) -> bool {
+    if depth > 64 { return false; }
+    match spread_names(fs, sels, 0) { Some(ns) if nodup(&ns) => {} _ => return false }
+    sv.possible(t).iter().all(|o| {
+        let Some(l) = flat_scope(sv, fs, o, sels, 0) else { return false };
+        let keys: Vec<&str> = l.iter().map(|f| f.alias.map(|a| a.name).unwrap_or(f.name.name)).collect();
+        nodup(&keys) && l.iter().all(|f| {
+            let alias_ok = f.alias.map_or(true, |a| a.name != "__typename" && f.name.name != "__typename");
+            alias_ok && match &f.selection_set {
+                Some(ss) => match sv.field_named_type(o, f.name.name) {
+                    Some(named) => merge_free(sv, fs, &named, &ss.selections.iter().collect::<Vec<_>>(), depth + 1),
+                    None => true,
+                },
+                None => true,
+            }
+        })
+    })
+}
+/// statistic only: like merge_free but repeated LEAF keys are allowed (object keys still distinct), aliased __typename allowed or not
+fn merge_free_relaxed<'a>(sv: &SV, fs: &Frags<'a>, t: &str, sels: &[&'a Selection<'a>], depth: usize, allow_alias_tn: bool) -> bool {
+    if depth > 64 { return false; }
+    match spread_names(fs, sels, 0) { Some(ns) if nodup(&ns) => {} _ => return false }
+    sv.possible(t).iter().all(|o| {
+        let Some(l) = flat_scope(sv, fs, o, sels, 0) else { return false };
+        let obj_keys: Vec<&str> = l.iter().filter(|f| f.selection_set.is_some()).map(|f| f.alias.map(|a| a.name).unwrap_or(f.name.name)).collect();
+        let leaf_keys: Vec<&str> = l.iter().filter(|f| f.selection_set.is_none()).map(|f| f.alias.map(|a| a.name).unwrap_or(f.name.name)).collect();
+        nodup(&obj_keys) && obj_keys.iter().all(|k| !leaf_keys.contains(k)) && l.iter().all(|f| {
+            let alias_ok = allow_alias_tn || f.alias.map_or(true, |a| a.name != "__typename" && f.name.name != "__typename");
+            alias_ok && match &f.selection_set {
+                Some(ss) => match sv.field_named_type(o, f.name.name) {
+                    Some(named) => merge_free_relaxed(sv, fs, &named, &ss.selections.iter().collect::<Vec<_>>(), depth + 1, allow_alias_tn),
+                    None => true,
+                },
+                None => true,
+            }
+        })
+    })
+}
 fn root_name(doc: &TypeSystemDocument, op: OperationType) -> String {
     let mut found: Option<String> = None;
     for d in &doc.definitions {
@@ -337,10 +410,16 @@ fn run_doc(out: &mut Out, si: usize, sdl: &str, tsdoc: &TypeSystemDocument, sche
             }
         };
         *out.stats.entry("definitions").or_insert(0) += 1;
-        if plain_list(&sels.selections) { *out.stats.entry("definitions_plain(covered by the partial equivalence theorems)").or_insert(0) += 1; }
-        out.terms.push((si, di, format!("CDef {{S}} {{D}} {} {} {} {} {}", idx, tree_term, ts_term, coq_bool(safe), coq_bool(af))));
+        let plain = plain_list(&sels.selections);
+        let frag_names: Vec<&str> = frags.iter().map(|f| f.name.name).collect();
+        let mfree = nodup(&frag_names) && merge_free(&sv, &frags, &parent, &selrefs, 0);
+        if plain { *out.stats.entry("definitions_plain(theorem C01_emit_eq_ref_local_partial applies)").or_insert(0) += 1; }
+        if nodup(&frag_names) && merge_free_relaxed(&sv, &frags, &parent, &selrefs, 0, false) { *out.stats.entry("forecast_not_proved:merge_free_if_repeated_leaf_keys_were_allowed").or_insert(0) += 1; }
+        if nodup(&frag_names) && merge_free_relaxed(&sv, &frags, &parent, &selrefs, 0, true) { *out.stats.entry("forecast_not_proved:merge_free_if_repeated_leaf_keys_and_aliased_typename_were_allowed").or_insert(0) += 1; }
+        if mfree { *out.stats.entry("definitions_merge_free(theorem C01_emit_eq_ref_local_merge_free applies)").or_insert(0) += 1; }
+        out.terms.push((si, di, format!("CDef {{S}} {{D}} {} {} {} {} {} {} {}", idx, tree_term, ts_term, coq_bool(safe), coq_bool(af), coq_bool(plain), coq_bool(mfree))));
         let dj = json!({"kind": what, "stream": stream, "definition": idx, "name": name, "schema": sdl, "doc": text, "emitted_type": printed_ty,
-                        "merge_safe": safe, "typename_alias_free": af, "classes": classes});
+                        "merge_safe": safe, "typename_alias_free": af, "plain": plain, "merge_free": mfree, "classes": classes});
         if out.samples.len() < 3 && idx == 0 && out.descr.len() % 7 == 1 { out.samples.push(json!({"doc": text, "emitted_type": dj["emitted_type"]})); }
         out.descr.push(dj);
         if out.c02 && !af {
